@@ -443,7 +443,8 @@ UNITS = pl.BASE_UNITS + ["skactiveml.utils._label:is_unlabeled", "skactiveml.uti
                          "skactiveml.pool._expected_error_reduction:ExpectedErrorReduction._concatenate_samples",
                          "skactiveml.pool._uncertainty_sampling:UncertaintySampling.query", "skactiveml.pool._core_set:CoreSet.query"]
 # ---------------------------------------------------------------- check_X_y (validation helper of the cost-embedding strategy)
-_NAN_SPELLINGS = {"np.nan": np.nan, "float('nan')": float("nan"), "math.nan": __import__("math").nan, "np.float64('nan')": np.float64("nan")}
+_NAN_SPELLINGS = {"np.nan": np.nan, "float('nan')": float("nan"), "math.nan": __import__("math").nan, "np.float64('nan')": np.float64("nan"),
+                  "np.float32('nan')": np.float32("nan")}
 
 
 def sc_check_x_y(d, n, enc, spelling=None):
